@@ -122,6 +122,9 @@ func bReadU16(r *bytes.Reader, data *uint16) error {
 		bs []byte
 	)
 	bs = b[:]
+	if r.Len() < len(bs) {
+		return io.ErrUnexpectedEOF
+	}
 	_, err := r.Read(bs)
 	*data = binary.BigEndian.Uint16(bs)
 	return err
@@ -134,6 +137,9 @@ func bReadU32(r *bytes.Reader, data *uint32) error {
 		bs []byte
 	)
 	bs = b[:]
+	if r.Len() < len(bs) {
+		return io.ErrUnexpectedEOF
+	}
 	_, err := r.Read(bs)
 	*data = binary.BigEndian.Uint32(bs)
 	return err
@@ -146,6 +152,9 @@ func bReadU64(r *bytes.Reader, data *uint64) error {
 		bs []byte
 	)
 	bs = b[:]
+	if r.Len() < len(bs) {
+		return io.ErrUnexpectedEOF
+	}
 	_, err := r.Read(bs)
 	*data = binary.BigEndian.Uint64(bs)
 	return err
@@ -391,6 +400,9 @@ func (b *Reader) Next(n int) []byte {
 	if n <= 0 {
 		return []byte{}
 	}
+	if n > b.buf.Len() {
+		n = b.buf.Len()
+	}
 	beg := len(b.ref) - b.buf.Len()
 	_, _ = b.buf.Seek(int64(n), io.SeekCurrent)
 	end := len(b.ref) - b.buf.Len()
@@ -401,10 +413,20 @@ func (b *Reader) Next(n int) []byte {
 //
 //go:nosplit
 func (b *Reader) Skip(n int) {
+	_ = b.skip(n)
+}
+
+// skip skips the next n byte and reports an error if fewer than n bytes remain.
+func (b *Reader) skip(n int) error {
 	if n <= 0 {
-		return
+		return nil
+	}
+	if n > b.buf.Len() {
+		_, _ = b.buf.Seek(0, io.SeekEnd)
+		return io.ErrUnexpectedEOF
 	}
 	_, _ = b.buf.Seek(int64(n), io.SeekCurrent)
+	return nil
 }
 
 func (b *Reader) skipFieldMap() error {
@@ -419,7 +441,9 @@ func (b *Reader) skipFieldMap() error {
 		if err != nil {
 			return err
 		}
-		_ = b.skipField(tyCur)
+		if err = b.skipField(tyCur); err != nil {
+			return err
+		}
 	}
 	return nil
 }
@@ -434,7 +458,9 @@ func (b *Reader) skipFieldList() error {
 		if err != nil {
 			return err
 		}
-		_ = b.skipField(tyCur)
+		if err = b.skipField(tyCur); err != nil {
+			return err
+		}
 	}
 	return nil
 }
@@ -452,38 +478,39 @@ func (b *Reader) skipFieldSimpleList() error {
 		return err
 	}
 
-	b.Skip(int(length))
-	return nil
+	return b.skip(int(length))
 }
 
 func (b *Reader) skipField(ty byte) error {
 	switch ty {
 	case BYTE:
-		b.Skip(1)
+		return b.skip(1)
 	case SHORT:
-		b.Skip(2)
+		return b.skip(2)
 	case INT:
-		b.Skip(4)
+		return b.skip(4)
 	case LONG:
-		b.Skip(8)
+		return b.skip(8)
 	case FLOAT:
-		b.Skip(4)
+		return b.skip(4)
 	case DOUBLE:
-		b.Skip(8)
+		return b.skip(8)
 	case STRING1:
 		data, err := b.buf.ReadByte()
 		if err != nil {
 			return err
 		}
-		l := int(data)
-		b.Skip(l)
+		return b.skip(int(data))
 	case STRING4:
 		var l uint32
 		err := bReadU32(b.buf, &l)
 		if err != nil {
 			return err
 		}
-		b.Skip(int(l))
+		if int64(l) > int64(b.buf.Len()) {
+			return io.ErrUnexpectedEOF
+		}
+		return b.skip(int(l))
 	case MAP:
 		err := b.skipFieldMap()
 		if err != nil {
@@ -578,6 +605,9 @@ func (b *Reader) ReadSliceInt8(data *[]int8, len int32, require bool) error {
 	if len <= 0 {
 		return nil
 	}
+	if int(len) > b.buf.Len() {
+		return fmt.Errorf("read []int8 error: length %d exceeds the remaining %d bytes", len, b.buf.Len())
+	}
 
 	*data = make([]int8, len)
 	_, err := b.buf.Read(*(*[]uint8)(unsafe.Pointer(data)))
@@ -592,6 +622,9 @@ func (b *Reader) ReadSliceUint8(data *[]uint8, len int32, require bool) error {
 	if len <= 0 {
 		return nil
 	}
+	if int(len) > b.buf.Len() {
+		return fmt.Errorf("read []uint8 error: length %d exceeds the remaining %d bytes", len, b.buf.Len())
+	}
 
 	*data = make([]uint8, len)
 	_, err := b.buf.Read(*data)
@@ -603,6 +636,9 @@ func (b *Reader) ReadSliceUint8(data *[]uint8, len int32, require bool) error {
 
 // ReadBytes reads []byte for the given length and the require or optional sign.
 func (b *Reader) ReadBytes(data *[]byte, len int32, require bool) error {
+	if len < 0 || int(len) > b.buf.Len() {
+		return fmt.Errorf("read []byte error: length %d exceeds the remaining %d bytes", len, b.buf.Len())
+	}
 	*data = make([]byte, len)
 	_, err := b.buf.Read(*data)
 	return err
@@ -849,6 +885,9 @@ func (b *Reader) ReadString(data *string, tag byte, require bool) error {
 		if err != nil {
 			return fmt.Errorf("read string4 tag:%d error:%v", tag, err)
 		}
+		if int64(length) > int64(b.buf.Len()) {
+			return fmt.Errorf("read string4 tag:%d error: length %d exceeds the remaining %d bytes", tag, length, b.buf.Len())
+		}
 		buff := b.Next(int(length))
 		*data = string(buff)
 	} else if ty == STRING1 {
@@ -856,6 +895,9 @@ func (b *Reader) ReadString(data *string, tag byte, require bool) error {
 		err = bReadU8(b.buf, &length)
 		if err != nil {
 			return fmt.Errorf("read string1 tag:%d error:%v", tag, err)
+		}
+		if int(length) > b.buf.Len() {
+			return fmt.Errorf("read string1 tag:%d error: length %d exceeds the remaining %d bytes", tag, length, b.buf.Len())
 		}
 		buff := b.Next(int(length))
 		*data = string(buff)
